@@ -46,3 +46,17 @@ Proof.
   intros r. destruct (rel_result_incl join ring_of o d r) as [_ [H2 _]]. split; [exact H2|].
   intros f Hf. exact (rel_result_incl_rings join ring_of o d r f Hf).
 Qed.
+
+(* the stronger reading of IncludeInvalidPolygons is false of the model (and of the code: the
+   harness corpus contains d_hole and model = implementation there) *)
+Lemma incl_keeps_holes_refuted :
+  exists d r f f',
+    In r (relations d) /\
+    snd (rel_result Mputil.join Mputil.ring_of (set_incl false o0) d r) = Some f /\
+    snd (rel_result Mputil.join Mputil.ring_of (set_incl true o0) d r) = Some f' /\
+    polys_kept (f_geom f) (f_geom f') = false /\
+    rings_sub (geom_rings (f_geom f)) (geom_rings (f_geom f')) = true.
+Proof.
+  exists d_hole, r_hole. eexists. eexists. split; [left; reflexivity|].
+  split; [vm_compute; reflexivity|]. split; [vm_compute; reflexivity|]. split; vm_compute; reflexivity.
+Qed.
